@@ -8,7 +8,7 @@
 struct deq_tp { struct timed_packet *a; size_t head; size_t len; size_t cap; int64_t sum; };
 #define DEQ_CAP_MAX ((size_t)1 << 20)
 #define DEQ_SHAPE(q) ((q).cap <= DEQ_CAP_MAX && (q).head <= (q).cap && (q).len <= (q).cap - (q).head && \
-                      (q).sum >= 0)
+                      (q).sum >= 0 && ((q).len == 0 ? (q).sum == 0 : 1))
 #define DEQ_FRESH(q) __CPROVER_is_fresh((q).a, (q).cap * sizeof(struct timed_packet))
 #define DEQ_HAS_ROOM(q) ((q).head + (q).len < (q).cap)
 #define DEQ_AT(q, i) ((q).a[(q).head + (i)])
@@ -34,6 +34,7 @@ static inline void deq_tp_erase_begin(struct deq_tp *q)
   __CPROVER_assert(q->len > 0, "deque::erase(begin()) on a non-empty deque");
   /* ghost-model fact: sum is by definition the sum of the (non-negative) sizes of all elements, so it is at least the front's */
   __CPROVER_assume(q->sum >= (int64_t)q->a[q->head].pkt.bufsz + q->a[q->head].pkt.overhead);
+  __CPROVER_assume(q->len != 1 || q->sum == (int64_t)q->a[q->head].pkt.bufsz + q->a[q->head].pkt.overhead);
   q->sum = q->sum - ((int64_t)q->a[q->head].pkt.bufsz + q->a[q->head].pkt.overhead);
   q->head = q->head + 1;
   q->len = q->len - 1;
